@@ -55,9 +55,9 @@ def gen_plan(rng, tier="quick"):
     layouts = [
         [["time", 0]], [["site", 0]], [["time", 0], ["site", 0]], [["site", 0], ["time", 0]],
         [["time", 0], ["lat", 0], ["lon", 0]], [["lat", 0], ["lon", 0]], [],
-        [["time", 0], ["site", 0]],
+        [["time", 0], ["site", 0]], [["time", 0]], [["site", 0]], [["time", 0], ["site", 0]],
     ]
-    dims = [[k, rng.randint(1, 4)] for k, _ in rng.choice(layouts)]
+    dims = [[k, rng.choice([1, 2, 2, 3, 3, 4])] for k, _ in rng.choice(layouts)]
     while int(np.prod([n for _, n in dims] or [1])) > 24:
         dims[rng.randrange(len(dims))][1] = 1
     nf = rng.randint(3, 14)
@@ -97,6 +97,11 @@ def gen_plan(rng, tier="quick"):
     if all(v == -1 for v in chunks.values()) and rng.random() < 0.8:
         k = rng.choice(sorted(sizes))
         chunks[k] = 1
+    # schedule effects need >=2 kernel tasks in flight: usually split a leading dimension into blocks
+    lead = [k for k, n in dims if n >= 2]
+    if lead and all(chunks[k] == -1 for k in lead) and rng.random() < 0.75:
+        k = rng.choice(lead)
+        chunks[k] = rng.choice([1, 1, 2]) if sizes[k] > 2 else 1
     # bound the graph: rolling-window operations on single-element blocks explode into 10^4 tasks
     heavy = op["m"] in ("smooth", "rotate", "interp") or op.get("kw", {}).get("smooth")
     limit = 16 if heavy else 48
@@ -110,14 +115,14 @@ def gen_plan(rng, tier="quick"):
         chunks[k] = -1 if nblocks(k) <= 2 or sizes[k] <= 2 else -(-sizes[k] // 2)
     aux = rng.choice(["same", "same", "numpy", "own"])
     aux_chunks = {k: _chunk_choice(rng, n) for k, n in sizes.items() if k not in ("freq", "dir")} if aux == "own" else None
-    strategy = rng.choices(["rw", "pct", "solo"], [70, 25, 5])[0]
+    strategy = rng.choices(["rw", "pct", "solo"], [80, 17, 3])[0]
     cfg = {
-        "K": rng.choice([1, 2, 2, 3, 4, 4, 8, 16]),
+        "K": rng.choice([1, 2, 2, 2, 2, 3, 3, 4, 4, 8, 16]),
         "chunksize": rng.choice([1, 1, 1, 2, 3]),
         "bgap_mean": rng.choice([1, 2, 5, 20]),
         "optimize_graph": rng.random() < 0.8,
         "strategy": strategy,
-        "gap_mean": rng.choice([2, 5, 10, 30, 100, 400]),
+        "gap_mean": rng.choice([1, 1, 2, 2, 3, 5, 8, 15, 40]),
         "p_dup": rng.choice([0, 0, 0.05, 0.3]),
         "p_stall": rng.choice([0, 0, 0.03, 0.1]),
         "d": rng.randint(1, 3),
